@@ -95,6 +95,7 @@ EVENTS = {
     'app': None, 'setsec': '\\setcounter{section}{5}', 'addeq': '\\addtocounter{equation}{2}',
     'stepsec': '\\stepcounter{section}', 'setsub': '\\setcounter{subsection}{3}',
     'setch9': '\\setcounter{chapter}{9}', 'stepu': '\\stepcounter{zzu}',
+    'addsec': '\\addtocounter{section}{2}', 'par': '\\paragraph{T}',
     'enum': '\\begin{enumerate}\\item a\\begin{enumerate}\\item b\\item c\\end{enumerate}\\item d\\end{enumerate}',
 }
 PREAMBLE = ('\\newtheorem{zzthm}{Theorem}\\newtheorem{zzlem}[zzthm]{Lemma}\\newtheorem{zzprop}{Prop}[section]'
@@ -112,10 +113,11 @@ class LModel(object):
         self.cls = cls
         self.numdepth = numdepth
         self.dev = dev
-        self.c = {k: 0 for k in ('chapter', 'section', 'subsection', 'subsubsection', 'equation', 'figure', 'table',
-                                 'zzthm', 'zzprop', 'zzu')}
+        self.c = {k: 0 for k in ('chapter', 'section', 'subsection', 'subsubsection', 'paragraph', 'equation', 'figure',
+                                 'table', 'zzthm', 'zzprop', 'zzu')}
         self.appendix = False
-        self.resets = {'section': ['subsection', 'zzprop', 'zzu'], 'subsection': ['subsubsection'], 'subsubsection': []}
+        self.resets = {'section': ['subsection', 'zzprop', 'zzu'], 'subsection': ['subsubsection'],
+                       'subsubsection': ['paragraph'], 'paragraph': []}
         if cls == 'book':
             self.resets['chapter'] = ['section', 'equation', 'figure', 'table']
         self.out = []
@@ -141,6 +143,8 @@ class LModel(object):
             return self.the('section') + '.' + str(c['subsection'])
         if name == 'subsubsection':
             return self.the('subsection') + '.' + str(c['subsubsection'])
+        if name == 'paragraph':
+            return self.the('subsubsection') + '.' + str(c['paragraph'])
         if name in ('equation', 'figure', 'table'):
             if self.cls == 'book':
                 if c['chapter'] > 0:
@@ -158,7 +162,7 @@ class LModel(object):
     def alph(n):
         return 'ABCDEFGHIJKLMNOPQRSTUVWXYZ'[n - 1] if 1 <= n <= 26 else '?%d' % n
 
-    LEVEL = {'chapter': 0, 'section': 1, 'subsection': 2, 'subsubsection': 3}
+    LEVEL = {'chapter': 0, 'section': 1, 'subsection': 2, 'subsubsection': 3, 'paragraph': 4}
 
     def sectioning(self, name):
         if self.LEVEL[name] <= self.numdepth:
@@ -176,6 +180,12 @@ class LModel(object):
             self.sectioning('subsection')
         elif ev == 'ssub':
             self.sectioning('subsubsection')
+        elif ev == 'par':
+            self.sectioning('paragraph')
+        elif ev == 'addsec':
+            self.c['section'] += 2
+            if self.dev & D_SET_RESETS:
+                self.reset_children('section')
         elif ev == 'secstar':
             self.out.append(('section', None))
         elif ev == 'eq':
@@ -236,9 +246,13 @@ class LModel(object):
         return (self.cls, self.numdepth, self.appendix, tuple(sorted(self.c.items())))
 
 
+DEEP_FROM = 3
+DEEP_EVENTS = ('ch', 'sec', 'sub', 'ssub', 'par', 'eq', 'prop', 'stepu')
+
+
 def events_for(cls):
     evs = ['sec', 'sub', 'ssub', 'secstar', 'eq', 'eqa', 'fig', 'tab', 'thm', 'lem', 'prop', 'app', 'setsec', 'setsub',
-           'addeq', 'stepsec', 'enum', 'stepu']
+           'addeq', 'stepsec', 'enum', 'stepu', 'addsec', 'par']
     if cls == 'book':
         evs = ['ch', 'setch9'] + evs
     return evs
@@ -266,7 +280,7 @@ def document(cls, hist):
                                                                        ''.join(event_source(cls, e) for e in hist))
 
 
-NUMBERED = ('chapter', 'section', 'subsection', 'subsubsection', 'equation', 'caption', 'thmenv', 'item')
+NUMBERED = ('chapter', 'section', 'subsection', 'subsubsection', 'paragraph', 'equation', 'caption', 'thmenv', 'item')
 
 
 def observe(cls, numdepth, hist):
@@ -344,7 +358,7 @@ def expand_chunk(hists):
     children = []
     if not hists:
         for cls in ('article', 'book'):
-            for nd in (None, 0, 3):
+            for nd in ((None, 0, 3, 4) if cls == 'article' else (None, 0, 3)):
                 m = LModel(cls, 2 if nd is None else nd)
                 children.append((((cls, nd),), core.h64(m.key())))
         return rep, children
@@ -353,6 +367,8 @@ def expand_chunk(hists):
         for ev in events_for(cls):
             if not enabled(cls, nd, ev):
                 continue
+            if len(evs) >= DEEP_FROM and ev not in DEEP_EVENTS:
+                continue        # beyond this depth only the sectioning / reset-relevant events are extended
             h2 = evs + (ev,)
             v, fids, exp, obs, m = judge(cls, nd, h2)
             rep.traces += 1
@@ -402,6 +418,8 @@ def run(tier, seed, rep):
     blocks += [(lo, min(lo + step, top), True) for lo in range(1, top, step)]
     core.merge_all(run_block_repr, core.rotate(blocks, seed), rep)
     depth = 4 if quick else 6
+    global DEEP_FROM
+    DEEP_FROM = 3 if quick else 4
     info = core.bfs(expand_chunk, depth, rep, chunk=8, state_cap=(60000 if quick else 2000000))
     return {'exhaustive': not info['capped'],
             'bounds': {'values': '1..4999 (alph 1..26), objects and parser', 'history_depth': info['depth_completed'],
